@@ -18,38 +18,54 @@ typedef struct { int id; int magic; } VO;
 static PTree *tree;
 static int plain, withdata, next_id;
 static int konly, vonly;   /* only a key / only a value destroy notifier: the other objects stay owned by the harness */
+static int wide;           /* comparator answers with arbitrary negative / positive magnitudes (INT_MIN, INT_MAX, +-2, difference), not only -1 / 1 */
 static int data_cookie;
 static char dlog[1 << 16]; static size_t dlen;
 static int path[256], plen, probing;
 static int present[MAXORD];
 /* objects given to a plain tree are owned by the harness */
 static KO *pk[1 << 16]; static VO *pvv[1 << 16]; static int npk, npv;
+/* … and must come back bit for bit: what they held when they were handed over */
+static KO pk_copy[1 << 16]; static VO pv_copy[1 << 16];
+static void own_k (KO *k) { pk_copy[npk] = *k; pk[npk++] = k; }
+static void own_v (VO *v) { pv_copy[npv] = *v; pvv[npv++] = v; }
 
 static void dl (const char *pfx, int id) { dlen += (size_t) snprintf (dlog + dlen, sizeof dlog - dlen, "%s%s%d", dlen ? " " : "", pfx, id); }
 
 static void key_destroy (ppointer p) { KO *k = p; if (!k) { dlen += (size_t) snprintf (dlog + dlen, sizeof dlog - dlen, "%skN", dlen ? " " : ""); return; } if (k->magic != KMAGIC) { puts ("CORRUPT-KEY"); exit (4); } dl ("k", k->id); k->magic = 0; free (k); }
 static void val_destroy (ppointer p) { VO *v = p; if (!v) { dlen += (size_t) snprintf (dlog + dlen, sizeof dlog - dlen, "%svN", dlen ? " " : ""); return; } if (v->magic != VMAGIC) { puts ("CORRUPT-VALUE"); exit (4); } dl ("v", v->id); v->magic = 0; free (v); }
 
-/* NULL is a legal key: it orders as 0 */
-static const KO null_key = { 0, -1, KMAGIC };
+/* NULL is a legal key: it orders as 0, or as the ordinal given with `nk=ORD` on the `new` line */
+static KO null_key = { 0, -1, KMAGIC };
+#include <limits.h>
+static pint sign_out (int c, int xo, int yo) {
+	if (!wide || c == 0) return c;
+	switch ((unsigned) (xo * 31 + yo * 7) % 5u) {
+	case 0: return c < 0 ? INT_MIN : INT_MAX;
+	case 1: return c * 2;
+	case 2: return xo - yo;              /* the classic subtraction comparator */
+	case 3: return c < 0 ? -4096 : 65536;
+	default: return c;
+	}
+}
 static pint cmp_data (pconstpointer a, pconstpointer b, ppointer data) {
 	const KO *x = a ? a : &null_key, *y = b ? b : &null_key;
 	if (withdata && data != &data_cookie) { puts ("DATA-MISMATCH"); exit (4); }
 	if (!withdata && data != NULL) { puts ("DATA-MISMATCH"); exit (4); }
 	if (probing && plen < 256) path[plen++] = y->ord;
-	return x->ord < y->ord ? -1 : x->ord > y->ord ? 1 : 0;
+	return sign_out (x->ord < y->ord ? -1 : x->ord > y->ord ? 1 : 0, x->ord, y->ord);
 }
 static pint cmp_plain (pconstpointer a, pconstpointer b) {
 	const KO *x = a ? a : &null_key, *y = b ? b : &null_key;
 	if (probing && plen < 256) path[plen++] = y->ord;
-	return x->ord < y->ord ? -1 : x->ord > y->ord ? 1 : 0;
+	return sign_out (x->ord < y->ord ? -1 : x->ord > y->ord ? 1 : 0, x->ord, y->ord);
 }
 
 static void drop_tree (void) {
 	if (tree) p_tree_free (tree);
 	tree = NULL;
-	for (int i = 0; i < npk; ++i) { if (pk[i]->magic != KMAGIC) { puts ("CORRUPT-KEY"); exit (4); } free (pk[i]); }
-	for (int i = 0; i < npv; ++i) { if (pvv[i]->magic != VMAGIC) { puts ("CORRUPT-VALUE"); exit (4); } free (pvv[i]); }
+	for (int i = 0; i < npk; ++i) { if (memcmp (pk[i], &pk_copy[i], sizeof (KO)) != 0 || pk[i]->magic != KMAGIC) { puts ("CORRUPT-KEY"); exit (4); } free (pk[i]); }
+	for (int i = 0; i < npv; ++i) { if (memcmp (pvv[i], &pv_copy[i], sizeof (VO)) != 0 || pvv[i]->magic != VMAGIC) { puts ("CORRUPT-VALUE"); exit (4); } free (pvv[i]); }
 	npk = npv = 0;
 	memset (present, 0, sizeof present);
 }
@@ -103,7 +119,7 @@ static pboolean visit (ppointer key, ppointer value, ppointer data) {
 	char kb[16] = "N", vb[16] = "N";
 	if (k) snprintf (kb, sizeof kb, "%d", k->id);
 	if (v) snprintf (vb, sizeof vb, "%d", v->id);
-	vlen += (size_t) snprintf (vlog + vlen, sizeof vlog - vlen, "%s%d:k%s:v%s", vlen ? " " : "", k ? k->ord : 0, kb, vb);
+	vlen += (size_t) snprintf (vlog + vlen, sizeof vlog - vlen, "%s%d:k%s:v%s", vlen ? " " : "", k ? k->ord : null_key.ord, kb, vb);
 	++visits;
 	return stop_at != 0 && visits >= stop_at;
 }
@@ -126,10 +142,17 @@ int main (void) {
 		dlen = 0; dlog[0] = 0;
 		if (!strcmp (op, "new")) {
 			drop_tree ();
-			plain = !strcmp (a2, "plain") || !strcmp (a3, "plain");
-			konly = !strcmp (a2, "konly") || !strcmp (a3, "konly");
-			vonly = !strcmp (a2, "vonly") || !strcmp (a3, "vonly");
-			withdata = !strcmp (a2, "data") || !strcmp (a3, "data");
+			plain = konly = vonly = withdata = wide = 0; null_key.ord = 0;
+			{
+				char copy[256], *sv = NULL; strcpy (copy, line);
+				char *tk = strtok_r (copy, " \t\r\n", &sv);             /* new */
+				tk = strtok_r (NULL, " \t\r\n", &sv);                    /* type */
+				while ((tk = strtok_r (NULL, " \t\r\n", &sv)) != NULL) {
+					if (!strcmp (tk, "plain")) plain = 1; else if (!strcmp (tk, "konly")) konly = 1; else if (!strcmp (tk, "vonly")) vonly = 1;
+					else if (!strcmp (tk, "data")) withdata = 1; else if (!strcmp (tk, "wide")) wide = 1;
+					else if (!strncmp (tk, "nk=", 3)) { int o = atoi (tk + 3); if (o >= 0 && o < MAXORD) null_key.ord = o; }
+				}
+			}
 			next_id = 0;
 			PTreeType ty = !strcmp (a1, "bst") ? P_TREE_TYPE_BINARY : !strcmp (a1, "rb") ? P_TREE_TYPE_RB : P_TREE_TYPE_AVL;
 			type = (int) ty;
@@ -143,19 +166,19 @@ int main (void) {
 			if (o < 0 || o >= MAXORD) { puts ("bad-op"); continue; }
 			KO *k = malloc (sizeof *k); VO *v = malloc (sizeof *v);
 			k->ord = o; k->id = next_id; k->magic = KMAGIC; v->id = next_id; v->magic = VMAGIC; ++next_id;
-			if (plain || vonly) pk[npk++] = k;
-			if (plain || konly) pvv[npv++] = v;
+			if (plain || vonly) own_k (k);
+			if (plain || konly) own_v (v);
 			p_tree_insert (tree, k, v);
 			present[o] = 1;
 			printf ("n=%d d=[%s]\n", p_tree_get_nnodes (tree), dlog);
 		} else if ((!strcmp (op, "insv") && n == 2) || (!strcmp (op, "insk") && n == 1) || (!strcmp (op, "inskv") && n == 1)) {
 			/* NULL as value / key / both (integer 0 through PINT_TO_POINTER, "no payload") */
 			int nk = op[3] == 'k', nv = op[3] == 'v' || op[4] == 'v';
-			int o = nk ? 0 : atoi (a1);
+			int o = nk ? null_key.ord : atoi (a1);
 			if (o < 0 || o >= MAXORD) { puts ("bad-op"); continue; }
 			KO *k = NULL; VO *v = NULL;
-			if (!nk) { k = malloc (sizeof *k); k->ord = o; k->id = next_id; k->magic = KMAGIC; if (plain || vonly) pk[npk++] = k; }
-			if (!nv) { v = malloc (sizeof *v); v->id = next_id; v->magic = VMAGIC; if (plain || konly) pvv[npv++] = v; }
+			if (!nk) { k = malloc (sizeof *k); k->ord = o; k->id = next_id; k->magic = KMAGIC; if (plain || vonly) own_k (k); }
+			if (!nv) { v = malloc (sizeof *v); v->id = next_id; v->magic = VMAGIC; if (plain || konly) own_v (v); }
 			++next_id;
 			p_tree_insert (tree, k, v);
 			present[o] = 1;
@@ -171,9 +194,57 @@ int main (void) {
 			fail_next = 1;
 			p_tree_insert (tree, k, v);
 			fail_next = 0;
-			if (was) { if (plain || vonly) pk[npk++] = k; if (plain || konly) pvv[npv++] = v; }
+			if (was) { if (plain || vonly) own_k (k); if (plain || konly) own_v (v); }
 			else { free (k); free (v); }           /* never entered the tree: still the caller's */
 			printf ("n=%d d=[%s]\n", p_tree_get_nnodes (tree), dlog);
+		} else if (!strcmp (op, "remn") && n == 1) {
+			/* the NULL pointer itself as the key to remove / look up (orders like the NULL key) */
+			pboolean r = p_tree_remove (tree, NULL);
+			present[null_key.ord] = 0;
+			printf ("%s n=%d d=[%s]\n", r ? "T" : "F", p_tree_get_nnodes (tree), dlog);
+		} else if (!strcmp (op, "getn") && n == 1) {
+			VO *v = p_tree_lookup (tree, NULL);
+			if (v) printf ("v%d\n", v->id); else puts ("nil");
+		} else if (!strcmp (op, "free") && n == 1) {
+			/* p_tree_free: every pair still stored goes to the notifiers now; harness-owned objects must be untouched */
+			p_tree_free (tree);
+			tree = NULL;
+			printf ("d=[%s]\n", dlog);
+			drop_tree ();
+		} else if (!strcmp (op, "api") && n == 1) {
+			/* the remaining entry points: p_tree_get_type, creation with bad arguments, every call on a NULL tree / with a
+			 * NULL callback; a second tree of every type lives and dies meanwhile (no state shared between trees) */
+			PTreeType ty = p_tree_get_type (tree);
+			char bad[256]; bad[0] = 0;
+			KO probe = { 1, -1, KMAGIC };
+			if (p_tree_new ((PTreeType) 3, cmp_plain) != NULL) strcat (bad, " new(type=3)");
+			if (p_tree_new ((PTreeType) -1, cmp_plain) != NULL) strcat (bad, " new(type=-1)");
+			if (p_tree_new (P_TREE_TYPE_AVL, NULL) != NULL) strcat (bad, " new(func=NULL)");
+			if (p_tree_new_with_data (P_TREE_TYPE_RB, NULL, &data_cookie) != NULL) strcat (bad, " new_with_data(func=NULL)");
+			if (p_tree_new_full ((PTreeType) 7, cmp_data, NULL, key_destroy, val_destroy) != NULL) strcat (bad, " new_full(type=7)");
+			p_tree_insert (NULL, &probe, &probe);
+			if (p_tree_remove (NULL, &probe) != FALSE) strcat (bad, " remove(NULL)");
+			if (p_tree_lookup (NULL, &probe) != NULL) strcat (bad, " lookup(NULL)");
+			visits = 0; stop_at = 0; vlen = 0;
+			p_tree_foreach (NULL, visit, &visits);
+			p_tree_foreach (tree, NULL, &visits);
+			if (visits != 0) strcat (bad, " foreach(NULL)");
+			p_tree_clear (NULL);
+			if ((int) p_tree_get_type (NULL) != -1) strcat (bad, " get_type(NULL)");
+			if (p_tree_get_nnodes (NULL) != 0) strcat (bad, " get_nnodes(NULL)");
+			p_tree_free (NULL);
+			for (int t2 = 0; t2 < 3; ++t2) {
+				int save_probing = probing; probing = 0;
+				PTree *o = withdata ? p_tree_new_with_data ((PTreeType) t2, cmp_data, &data_cookie) : p_tree_new ((PTreeType) t2, cmp_plain);
+				KO ks[5] = { { 3, -1, KMAGIC }, { 1, -1, KMAGIC }, { 2, -1, KMAGIC }, { 5, -1, KMAGIC }, { 4, -1, KMAGIC } };
+				if (!o || (int) p_tree_get_type (o) != t2) strcat (bad, " second-tree-type");
+				for (int i = 0; i < 5; ++i) p_tree_insert (o, &ks[i], &ks[i]);
+				if (p_tree_get_nnodes (o) != 5 || p_tree_lookup (o, &ks[2]) != &ks[2]) strcat (bad, " second-tree");
+				if (!p_tree_remove (o, &ks[0]) || p_tree_remove (o, &ks[0])) strcat (bad, " second-tree-remove");
+				p_tree_free (o);
+				probing = save_probing;
+			}
+			printf ("type=%s%s\n", ty == P_TREE_TYPE_BINARY ? "bst" : ty == P_TREE_TYPE_RB ? "rb" : ty == P_TREE_TYPE_AVL ? "avl" : "?", bad[0] ? bad : " null-api=ok");
 		} else if (!strcmp (op, "rem") && n == 2) {
 			int o = atoi (a1);
 			KO probe = { o, -1, KMAGIC };
